@@ -149,3 +149,35 @@ def cpp_program(draw, max_snippets=5, junk_brackets=True):
 def plain(toks):
     from . import gen_c
     return gen_c.render_plain(toks)
+
+
+# ------------------------------------------------------------------------------------------------ enumerated containers (C20)
+def container_shapes():
+    """Small C++ translation units enumerating brace pairs (namespace, nested namespace, class, struct, extern "C", function, enum-less
+    block) x the kind of the last / first member inside (function body, prototype, prototype group, class, variable, typedef, comment,
+    statement) x 0 / 2 blank lines behind the opening and in front of the closing brace: the shapes on which the blank-line count
+    options (nl_after_func_body ...) and eat_blanks_* meet.  Yields (name, source text)."""
+    members = {'body': 'void f%d()\n{\n    g();\n}', 'proto': 'void p%d();', 'protos': 'void q%d();\nvoid r%d();', 'class': 'class D%d\n{\n    int x;\n};',
+               'var': 'int v%d = 1;', 'typedef': 'typedef int T%d;', 'cmt': '// trailing comment %d', 'enum': 'enum E%d { A%d, B%d };'}
+    stmts = {'call': 'g();', 'decl': 'int a%d = 1;', 'if': 'if (x)\n{\n    g();\n}', 'cmt': '/* c%d */'}
+    containers = {'namespace': ('namespace N\n{', '}'), 'nested': ('namespace A\n{\nnamespace B\n{', '}\n}'), 'class': ('class C\n{\npublic:', '};'),
+                  'struct': ('struct S\n{', '};'), 'externc': ('extern "C"\n{', '}'), 'ns1': ('namespace M {', '} // namespace M')}
+    n = 0
+    for cname, (op, cl) in containers.items():
+        for first in members:
+            for last in members:
+                n += 1
+                if first != last and (n % 3):          # every member kind in last position with itself, a third of the mixed pairs
+                    continue
+                for gap in (0, 2):
+                    f = members[first].replace('%d', '1')
+                    m = members[last].replace('%d', '2')
+                    body = f + '\n\n' + 'void mid();\n\n' + m if first != last else m
+                    src = 'void g();\nextern int x;\n%s\n%s%s\n%s%s\nint after;\n' % (op, '\n' * gap, body, '\n' * gap, cl)
+                    yield ('container|%s|%s|%s|%d' % (cname, first, last, gap), src)
+    for first in stmts:
+        for last in stmts:
+            for gap in (0, 2):
+                body = stmts[first].replace('%d', '1') + '\ng();\n' + stmts[last].replace('%d', '2')
+                src = 'void g();\nextern int x;\nvoid outer()\n{\n%s%s\n%s}\nint after;\n' % ('\n' * gap, body, '\n' * gap)
+                yield ('container|function|%s|%s|%d' % (first, last, gap), src)
